@@ -170,6 +170,35 @@ def _gen_http_headers(headers):
     return retval
 
 
+class _WsgiResponse(object):
+    """The iterable returned to the WSGI server. It hands the response chunks
+    over and finalizes the request exactly once: when the chunks are exhausted
+    or when the server calls ``close()`` (e.g. because the client went away),
+    whichever happens first."""
+
+    def __init__(self, chunks, finalize):
+        self._chunks = iter(chunks)
+        self._finalize = finalize
+
+    def __iter__(self):
+        return self
+
+    def __next__(self):
+        try:
+            return next(self._chunks)
+
+        except BaseException:
+            self.close()
+            raise
+
+    next = __next__
+
+    def close(self):
+        finalize, self._finalize = self._finalize, None
+        if finalize is not None:
+            finalize()
+
+
 class WsgiTransportContext(HttpTransportContext):
     """The class that is used in the transport attribute of the
     :class:`WsgiMethodContext` class."""
@@ -406,7 +435,7 @@ class WsgiApplication(HttpBase):
             # Report but ignore any exceptions from auxiliary methods.
             logger.exception(e)
 
-        return chain(p_ctx.out_string, self.__finalize(p_ctx))
+        return _WsgiResponse(p_ctx.out_string, lambda: self.__finalize(p_ctx))
 
     def handle_rpc(self, req_env, start_response):
         initial_ctx = WsgiMethodContext(self, req_env,
@@ -504,7 +533,8 @@ class WsgiApplication(HttpBase):
         start_response(p_ctx.transport.resp_code,
                                 _gen_http_headers(p_ctx.transport.resp_headers))
 
-        retval = chain(p_ctx.out_string, self.__finalize(p_ctx))
+        retval = _WsgiResponse(p_ctx.out_string,
+                                            lambda: self.__finalize(p_ctx))
 
         try:
             process_contexts(self, others, p_ctx, error=None)
@@ -517,8 +547,6 @@ class WsgiApplication(HttpBase):
     def __finalize(self, p_ctx):
         p_ctx.close()
         self.event_manager.fire_event('wsgi_close', p_ctx)
-
-        return ()
 
     def __reconstruct_wsgi_request(self, http_env):
         """Reconstruct http payload using information in the http header."""
